@@ -87,6 +87,14 @@ func injectFaultClass(p *PRNG, class string, tree *[]*DNode) *fault {
 		appendTop(m1)
 		appendTop(m2)
 		return &fault{class, []string{"already"}, m2}
+	case "duplicate-enum-pasted-twice":
+		// an ENUM declared in the body of a macro that is pasted twice: the second PASTE declares the name again
+		// (the PASTEs stand right after JSIGHT so that no implicit context swallows them; the macro is defined last)
+		mac := &DNode{Keyword: "MACRO", Params: []string{"@dupEnumMacro"}, Kids: []*DNode{{Keyword: "ENUM", Params: []string{"@dupPastedEnum"}, Body: "[1, 2]", BodyKind: "enum"}}}
+		p1 := &DNode{Keyword: "PASTE", Params: []string{"@dupEnumMacro"}}
+		p2 := &DNode{Keyword: "PASTE", Params: []string{"@dupEnumMacro"}}
+		*tree = append(append(append([]*DNode{t[0], p1, p2}, t[1:]...)), mac)
+		return &fault{class, []string{"already"}, p2}
 	case "duplicate-operation-id":
 		ms := findNodes(t, func(n, _ *DNode) bool { return isMethodNode(n) })
 		if len(ms) < 2 {
@@ -264,6 +272,39 @@ func injectFaultClass(p *PRNG, class string, tree *[]*DNode) *fault {
 		bad := &DNode{Keyword: "GET", Params: []string{"/dupParam/{id}/x/{id}"}, Kids: []*DNode{{Keyword: "200", Params: []string{"any"}}}}
 		appendTop(bad)
 		return &fault{class, []string{"duplicated"}, bad}
+	case "response-without-body", "request-without-body":
+		// a response / request that has Headers (an object schema) but no body of any kind: the core's
+		// validateCatalog must refuse it at the response / Request keyword
+		ms := findNodes(t, func(n, _ *DNode) bool { return isMethodNode(n) && (class == "response-without-body" || n.Keyword != "GET") })
+		if len(ms) == 0 {
+			return nil
+		}
+		m := Pick(p, ms)
+		hdr := &DNode{Keyword: "Headers", Body: "{\n  \"X-Request-Id\": \"abc\"\n}", BodyKind: "schema"}
+		if class == "response-without-body" {
+			for _, k := range m.Kids {
+				if k.Keyword == "418" {
+					return nil
+				}
+			}
+			bad := &DNode{Keyword: "418", Kids: []*DNode{hdr}}
+			m.Kids = append(m.Kids, bad)
+			return &fault{class, []string{"undefined response body"}, bad}
+		}
+		var pre, post []*DNode
+		for _, k := range m.Kids {
+			if k.Keyword == "Request" {
+				continue
+			}
+			if len(k.Keyword) == 3 && k.Keyword[0] >= '1' && k.Keyword[0] <= '5' {
+				post = append(post, k)
+			} else {
+				pre = append(pre, k)
+			}
+		}
+		bad := &DNode{Keyword: "Request", Kids: []*DNode{hdr}}
+		m.Kids = append(append(pre, bad), post...)
+		return &fault{class, []string{"undefined request body"}, bad}
 	case "missing-body":
 		ms := findNodes(t, func(n, _ *DNode) bool { return isMethodNode(n) })
 		if len(ms) == 0 {
@@ -285,7 +326,7 @@ func injectFaultClass(p *PRNG, class string, tree *[]*DNode) *fault {
 var faultClasses = []string{"duplicate-type", "duplicate-enum", "duplicate-server", "duplicate-tag", "duplicate-macro", "duplicate-operation-id",
 	"duplicate-interaction", "second-title", "second-version", "second-description", "second-query", "second-request", "undefined-type",
 	"undefined-tag", "undefined-macro", "missing-parameter", "forbidden-annotation", "jsight-missing", "jsight-repeated", "jsight-not-first",
-	"similar-paths", "duplicate-path-parameter"}
+	"similar-paths", "duplicate-path-parameter", "response-without-body", "request-without-body", "duplicate-enum-pasted-twice"}
 
 // injectFault (used by the split generator): any class
 func injectFault(p *PRNG, tree []*DNode) string {
@@ -300,7 +341,7 @@ func genFaultCases(p *PRNG, n int, tier string) []*Case {
 		m := GenModel(p.Fork(), 1+p.Intn(3))
 		// keep the base valid and simple to reason about: no regex-or recursion etc. (the base is checked to build)
 		base := ModelTree(m)
-		class := faultClasses[len(cases)%len(faultClasses)]
+		class := faultClasses[(len(cases)/2)%len(faultClasses)] // two cases (base, faulty) per round
 		tree := cloneTree(base)
 		f := injectFaultClass(p, class, &tree)
 		if f == nil {
@@ -315,7 +356,7 @@ func genFaultCases(p *PRNG, n int, tier string) []*Case {
 		pos := map[*DNode]NodePos{}
 		files := map[string][]byte{}
 		mode := p.Intn(3)
-		if strings.HasPrefix(class, "jsight") || class == "duplicate-macro" || class == "undefined-macro" {
+		if strings.HasPrefix(class, "jsight") || class == "duplicate-macro" || class == "undefined-macro" || class == "duplicate-enum-pasted-twice" {
 			mode = 0
 		}
 		switch mode {
